@@ -136,7 +136,7 @@ def offset_case(rng, *, hermitian=True, fmt=None, max_params=2, N=3):
 
 
 def random_case(rng, *, hermitian=True, fmt=None, max_blocks=3, max_size=3, max_params=2, N=3,
-                allow_fully=True, allow_mask=True, cplx=None, offset_prob=0.12):
+                allow_fully=True, allow_mask=True, cplx=None, offset_prob=0.12, min_params=1):
     if rng.random() < offset_prob:
         return offset_case(rng, hermitian=hermitian, fmt=fmt, max_params=max_params, N=N)
     fmt = fmt or rng.choice(["sympy", "sympy", "dense", "sparse"])
@@ -145,7 +145,7 @@ def random_case(rng, *, hermitian=True, fmt=None, max_blocks=3, max_size=3, max_
     sub = rand_sub(rng, nb, max_size)
     if len(sub) == 1 and nb == 1:
         sub = [0, 0]
-    nparam = rng.randint(1, max_params)
+    nparam = rng.randint(min(min_params, max_params), max_params)
     cplx = rng.random() < 0.6 if cplx is None else cplx
     fully = None
     mode = rng.random()
